@@ -45,4 +45,19 @@ def absR (x : Rat) : Rat := if x < 0 then -x else x
 /-- `|x - y| ≤ tol · (1 + |y|)` -/
 def close (tol x y : Rat) : Bool := absR (x - y) ≤ tol * (1 + absR y)
 
+/-! ### renumbering the nodes (= the leaves of the dendrogram) by a permutation -/
+
+/-- the new id of node `x`: leaves are renumbered by `π`, internal nodes keep their id -/
+def renLeaf (n : Nat) (π : Nat → Nat) (x : Nat) : Nat := if x < n then π x else x
+
+def relabelRow (n : Nat) (π : Nat → Nat) (r : Row α) : Row α :=
+  { r with i := renLeaf n π r.i, j := renLeaf n π r.j }
+
+/-- the same dendrogram over the renumbered leaves -/
+def relabelDendro (n : Nat) (π : Nat → Nat) (D : Dendro α) : Dendro α := D.map (relabelRow n π)
+
+/-- the adjacency matrix of the renumbered graph: entry `(i, j)` is the old entry `(πinv i, πinv j)` -/
+def relabelMat (n : Nat) (πinv : Nat → Nat) (a : Mat) : Mat :=
+  tab n fun i => tab n fun j => a.get (πinv i) (πinv j)
+
 end SkNet.HMetrics
